@@ -492,6 +492,9 @@ def _compareDocumentPosition(self, other):
             if sparent is oparent:
                 s = sparents[i+1]
                 o = oparents[j+1]
+                # Keep going until we reach the deepest common ancestor
+                if s is o:
+                    continue
                 for item in sparent:
                    if item is s:
                        return Node.DOCUMENT_POSITION_FOLLOWING
